@@ -207,14 +207,36 @@ class _Rects:
                 return False
         return True
 
+    def touches(self, other):
+        """GEOS: the two meet, but only along their boundaries (no part overlaps the other in area)"""
+        ob = other.boundingbox
+        meets = False
+        for l, b, r, t in self.rects:
+            if r > ob.left and ob.right > l and t > ob.bottom and ob.top > b:
+                return False
+            if not (r < ob.left or ob.right < l or t < ob.bottom or ob.top < b):
+                meets = True
+        return meets
 
-def h_polygon_query(shape, res, flipx, flipy, nrect, arrangement="any", rows=2):
+    def intersects(self, other):
+        return not self.disjoint(other)
+
+    @property
+    def area(self):
+        a = 0
+        for l, b, r, t in self.rects:
+            a = a + (r - l) * (t - b)
+        return a
+
+
+def h_polygon_query(shape, res, flipx, flipy, nrect, arrangement="any", rows=2, warm_cache=False):
     """tiles_from_geopolygon with a (multi-part) stand-in geometry: a tile is returned iff its
     footprint meets one of the parts -- tiles of the bounding box that lie between the parts are
     not returned, tiles meeting a part in positive area always are"""
     from .c16 import setup_fakegeom
 
-    setup_fakegeom()
+    if not symx.concrete_mode():
+        setup_fakegeom()
     g, ox, oy = mk_gs(shape, res, flipx, flipy, origin="zero")
     rx, ry = F(res[0]), F(res[1])
     sx, sy = shape[1] * abs(rx), shape[0] * abs(ry)
@@ -232,8 +254,32 @@ def h_polygon_query(shape, res, flipx, flipy, nrect, arrangement="any", rows=2):
         (l0, b0, r0, t0), (l1, b1, r1, t1) = rects
         assume({"right": And(l1 >= r0, b1 < t0, b0 < t1), "above": And(b1 >= t0, l1 < r0, l0 < r1), "diagonal": And(l1 >= r0, Or(b1 >= t0, t1 <= b0)),
                 "overlapping": And(l1 < r0, l0 < r1, b1 < t0, b0 < t1)}[arrangement])
-    q = _Rects(rects, g.crs)
-    got = [t for t, _ in g.tiles_from_geopolygon(q)]
+    if symx.concrete_mode():
+        # the replay asks GEOS itself
+        import shapely.geometry as sg
+        from odc.geo.geom import Geometry
+
+        q = Geometry(sg.MultiPolygon([sg.box(*[float(v) for v in r_]) for r_ in rects]) if len(rects) > 1 else sg.box(*[float(v) for v in rects[0]]), g.crs)
+    else:
+        q = _Rects(rects, g.crs)
+    if warm_cache:
+        # state between queries: one cache dictionary shared by consecutive queries, as a caller
+        # looping over many polygons would; an earlier query (a small square somewhere else) filled it
+        cache = {}
+        wl, wb = Real("warm_l"), Real("warm_b")
+        assume(And(wl >= -sx, wl <= 3 * sx / 2, wb >= sy / 8, wb <= sy / 2))
+        warm = [(wl, wb, wl + sx / 8, wb + sy / 8)]
+        if symx.concrete_mode():
+            import shapely.geometry as sg
+            from odc.geo.geom import Geometry
+
+            wq = Geometry(sg.box(*[float(v) for v in warm[0]]), g.crs)
+        else:
+            wq = _Rects(warm, g.crs)
+        list(g.tiles_from_geopolygon(wq, geobox_cache=cache))
+        got = [t for t, _ in g.tiles_from_geopolygon(q, geobox_cache=cache)]
+    else:
+        got = [t for t, _ in g.tiles_from_geopolygon(q)]
     jx, jy = Int("jx"), Int("jy")
     _, xs, ys = tile_extent(g, jx, jy)
     x0, x1 = _ord(xs, rx > 0)
@@ -243,6 +289,10 @@ def h_polygon_query(shape, res, flipx, flipy, nrect, arrangement="any", rows=2):
     apart = And(*[Or(x1 < ex(l), x0 > ex(r), y1 < ex(b), y0 > ex(t)) for l, b, r, t in rects])
     prove("every_tile_meeting_a_part_is_returned", listed, when=meets_area)
     prove("no_tile_apart_from_every_part_is_returned", Not(listed) if isinstance(listed, symx.Sym) else not listed, when=apart)
+    if True:
+        # contact along an edge or at a corner only (what the far side of a concave polygon's edge has) is not an overlap
+        no_area = And(*[Or(x1 <= ex(l), x0 >= ex(r), y1 <= ex(b), y0 >= ex(t)) for l, b, r, t in rects])
+        prove("tile_in_mere_edge_contact_with_the_polygon_is_not_returned", Not(listed) if isinstance(listed, symx.Sym) else not listed, when=And(no_area, Not(apart)))
 
 
 
@@ -272,7 +322,7 @@ def h_from_sample(shape, res, flipx, flipy):
     _, a, b = tile_extent(g, jx, jy)
     _, a2, b2 = tile_extent(g2, jx, jy)
     if symx.concrete_mode():
-        tol = F(1, 10**6) * (1 + abs(a[0]) + abs(b[0]))
+        tol = F(1, 10**11) * (1 + abs(a[0]) + abs(b[0]))  # float rounding of a few operations, not a share of the coordinate
         prove("same_footprint", all(abs(p - q) <= tol for p, q in zip(_ord(a, True) + _ord(b, True), _ord(a2, True) + _ord(b2, True))))
         return
     p0, p1 = _ord(a, rx > 0)
@@ -297,7 +347,7 @@ def h_web_tiles(z):
     # a tile edge is one multiplication and one addition away from exact constants: a few units in
     # the last place of 2e7 m, whatever the zoom -- not an error that grows with the tile index
     # ... and in any case far below the library's own tolerance for "the same pixel grid" (1/20 pixel)
-    tol = (tsz / 256 / 20 + F(1e-8)) if __import__("os").environ.get("VERIF_DEV") else F(2e-9) * n + F(1e-8)
+    tol = tsz / 256 / 20 + F(1e-8)
     x0, x1 = xs  # rx > 0
     y1, y0 = ys  # ry < 0: pixel (0,0) at the top
     prove("left", abs(x0 - (-piR + x * tsz)) <= tol)
@@ -329,6 +379,7 @@ def h_eq(shape, res, flipx, flipy):
 
 CFG_Q = [
     dict(shape=[256, 256], res=["10", "-10"], flipx=False, flipy=False),
+    dict(shape=[100, 100], res=["1/1000", "-1000000004/1000000000000"], flipx=False, flipy=True),  # almost, not exactly, square pixels
     dict(shape=[100, 200], res=["1/4", "1/4"], flipx=True, flipy=False),
     dict(shape=[3, 7], res=["-100/3", "30"], flipx=False, flipy=True),
     dict(shape=[1, 1], res=["1/3600", "-1/3600"], flipx=True, flipy=True),
@@ -352,7 +403,7 @@ OBLIGATIONS = [
        functions=("odc.geo.gridspec.GridSpec.idx_bounds",), **B),
     Ob("A5_tiles_iter", h_tiles_iter, tiered(CFG_Q[:2], CFG_T[:4]), descr="tiles(bbox) enumerates exactly the idx_bounds range with the matching GeoBoxes (boxes up to one tile wide, case split)",
        functions=("odc.geo.gridspec.GridSpec.tiles",), bounds="query box at most one tile wide near the origin (<= 2x2 tiles by case split)", setup=setup),
-    Ob("A9_polygon_query", h_polygon_query, tiered([dict(CFG_Q[0], nrect=2, arrangement=a, rows=1) for a in ("right", "overlapping")], [dict(c, nrect=1) for c in CFG_T[:4]] + [dict(c, nrect=2, arrangement=a) for c in CFG_T[:4] for a in ("right", "above", "diagonal", "overlapping")]),
+    Ob("A9_polygon_query", h_polygon_query, tiered([dict(CFG_Q[0], nrect=2, arrangement=a, rows=1) for a in ("right", "overlapping")] + [dict(CFG_Q[0], nrect=2, arrangement="right", rows=1, warm_cache=True)], [dict(CFG_Q[0], nrect=2, arrangement="right", rows=1, warm_cache=True)] + [dict(c, nrect=1) for c in CFG_T[:4]] + [dict(c, nrect=2, arrangement=a) for c in CFG_T[:4] for a in ("right", "above", "diagonal", "overlapping")]),
        descr="tiles_from_geopolygon with a (multi-part) stand-in geometry: every tile meeting a part in positive area is returned, no tile apart from every part is (tiles of the bounding box between the parts are not)",
        functions=("odc.geo.gridspec.GridSpec.tiles_from_geopolygon", "odc.geo.gridspec.GridSpec.tiles", "odc.geo.gridspec.GridSpec.idx_bounds"),
        bounds="1-2 rectangles at most one tile wide near the origin (<= a few tiles by case split)", stubs=("union-of-rectangles geometry answering to_crs / boundingbox / disjoint exactly (GEOS and PROJ are outside the claim)", "vertex-list tile footprints"), setup=setup, timeout_ms=20000),
